@@ -281,8 +281,16 @@ def fs_order(ctx):
                         for s in ast.walk(b):
                             if isinstance(s, ast.Call) and isinstance(s.func, ast.Attribute) and s.func.attr in ('append', 'extend', 'insert', 'appendleft'):
                                 ok = False
-                            if isinstance(s, (ast.Break, ast.Return, ast.Yield)):
+                            if isinstance(s, (ast.Break, ast.Return)):
                                 ok = False
+                            if isinstance(s, ast.Yield):
+                                # a generator of (asset, value) pairs: order-free where every caller pours it into a dict / set / order-free reduction
+                                sites_ = M.call_sites(fn.qn)
+                                def poured(c_, n_):
+                                    pp_ = parent_map(c_.node).get(n_)
+                                    return isinstance(pp_, ast.Call) and isinstance(pp_.func, ast.Name) and pp_.func.id in (ORDER_FREE | {'dict'}) and n_ in pp_.args
+                                if not sites_ or not all(poured(c_, n_) for c_, n_ in sites_):
+                                    ok = False
                 ctx.require(ok, 'C18.fs', 'the per-asset frame dicts are iterated only to build another dict keyed by asset (%s)' % fn.qn, fn.site(node),
                             key='C18.fs|iterate|%s' % fn.qn)
 
